@@ -119,7 +119,7 @@ def _run(params, values):
 
 def _tok_free(params):
     return [Free("ty", kind="int", lo=0, hi=3), Free("a", exclude=""), Free("b", exclude=""), Free("n", kind="int", lo=-5, hi=5),
-            Free("kids", kind="int", lo=0, hi=2), Free("u", kind="bool"), Free("c", kind="bool"), Free("hid", kind="bool"), Free("blk", kind="bool")]
+            Free("kids", kind="int", lo=0, hi=2), Free("u", kind="bool"), Free("c", kind="bool"), Free("hid", kind="bool")]
 
 
 def _tok_run(params, values):
@@ -131,7 +131,7 @@ def _tok_run(params, values):
     kids = [None, [], [kid]][kids_sel]
     t = Token(ty, values["a"], 0, attrs={"start": values["n"], "k": values["a"]}, map=[0, 1], level=0, children=kids,
               content=values["a"] + values["b"], markup=values["b"], info=values["a"], meta={"m": values["n"], "s": values["b"]},
-              block=True if values["blk"] else False, hidden=True if values["hid"] else False)
+              block=True, hidden=values["hid"])
     recs = []
     try:
         u = True if values["u"] else False
@@ -144,7 +144,7 @@ def _tok_run(params, values):
         recs.append({"key": "dict-roundtrip-not-equal", "ttype": ty, "as_upstream": u, "children": c})
     if u and d["attrs"] is not None and not isinstance(d["attrs"], list):
         recs.append({"key": "upstream-attrs-format"})
-    return recs, repr(d)
+    return recs, [ty, kids_sel, u, c]
 
 
 HARNESSES = {
@@ -155,9 +155,9 @@ HARNESSES = {
 
 CTX = [
     ("olist-start", JS, [{"v": "a"}, "7. x\n"]), ("nested-image", JS, ["![a ![", {"v": "a"}, "](y)](x)\n"]), ("empty-inline", JS, ["# \n\n", {"v": "a"}, "\n"]),
-    ("table-align", JS, ["a|b\n:-|-:\n", {"v": "a"}, "|2\n"]), ("labels", JSX, ["[a]: /x 't'\n\n[", {"v": "a"}, "][a] ![i][a]\n"]),
-    ("fence-info", JS, ["```", {"v": "a"}, " b\nc\n```\n"]), ("emph-link", JS, ["*[", {"v": "a"}, "](u)* `c` <b>\n"]),
-    ("html-on", CM, ["<div>\n", {"v": "a"}, "</div>\n\nx <i>", {"v": "a"}, "</i>\n"]), ("hard-soft", JS, ["a  \nb\n", {"v": "a"}, "\n"]),
+    ("table-align", JS, ["a|b\n:-|-:\n1|", {"v": "a"}, "\n"]), ("labels", JSX, ["[a]: /x 't'\n\n[x", {"v": "a"}, "y][a] ![i][a]\n"]),
+    ("fence-info", JS, ["```", {"v": "a"}, " b\nc\n```\n"]), ("emph-link", JS, ["*[t](u)* `", {"v": "a"}, "` <b>\n"]),
+    ("html-on", CM, ["<div>\n", {"v": "a"}, "</div>\n\nx <i>y</i>\n"]), ("hard-soft", JS, ["a  \nb\n", {"v": "a"}, "\n"]),
     ("tight-loose", JS, ["- a\n- ", {"v": "a"}, "\n\n  b\n"]),
 ]
 
